@@ -299,30 +299,105 @@ func runC19_6(c *Ctx) {
 	}
 }
 
-// runSyncPoolEscape: objects obtained from a sync.Pool and Put back in the same function must not leak into the results.
+// runSyncPoolEscape: objects obtained from a sync.Pool and Put back by the same activation (directly, by a
+// deferred Put, or by a deferred closure that puts the captured variable) must not leak into the results.
 func runSyncPoolEscape(c *Ctx) {
 	p := c.P
 	poolGet := p.MethodObj("sync", "Pool", "Get")
 	poolPut := p.MethodObj("sync", "Pool", "Put")
+	fromGet := func(v ssa.Value) bool {
+		v = stripIface(v)
+		if ta, ok := v.(*ssa.TypeAssert); ok {
+			v = stripIface(ta.X)
+		}
+		gc, ok := v.(*ssa.Call)
+		return ok && CalleeObj(gc) == poolGet
+	}
 	n := 0
 	for _, fn := range p.ShippedFuncs() {
+		// pooled objects of this activation: values from Get, and the variables (cells) they are stored in
+		cells := map[*ssa.Alloc]bool{}
+		Instrs(fn, func(i ssa.Instruction) {
+			if st, ok := i.(*ssa.Store); ok && fromGet(st.Val) {
+				if al, isAl := st.Addr.(*ssa.Alloc); isAl {
+					cells[al] = true
+				}
+			}
+		})
+		isPooled := func(v ssa.Value) bool {
+			v = stripIface(v)
+			if fromGet(v) {
+				return true
+			}
+			if u, ok := v.(*ssa.UnOp); ok && u.Op == token.MUL {
+				if al, isAl := u.X.(*ssa.Alloc); isAl && cells[al] {
+					return true
+				}
+			}
+			return false
+		}
+		type putEv struct {
+			in       ssa.Instruction
+			obj      ssa.Value // pooled value (direct) or nil when put through a cell
+			cell     *ssa.Alloc
+			deferred bool
+		}
+		var puts []putEv
 		for _, pc := range AllCalls(fn) {
-			if CalleeObj(pc) != poolPut {
+			if CalleeObj(pc) == poolPut {
+				obj := stripIface(pc.Common().Args[1])
+				if !isPooled(obj) {
+					continue
+				}
+				ev := putEv{in: pc, obj: obj}
+				_, ev.deferred = pc.(*ssa.Defer)
+				if u, ok := obj.(*ssa.UnOp); ok {
+					ev.cell, _ = u.X.(*ssa.Alloc)
+				}
+				puts = append(puts, ev)
 				continue
 			}
-			obj := stripIface(pc.Common().Args[1])
-			// only objects obtained from a pool in this very function
-			src := obj
-			if ta, ok := src.(*ssa.TypeAssert); ok {
-				src = ta.X
-			}
-			gc, ok := stripIface(src).(*ssa.Call)
-			if !ok || CalleeObj(gc) != poolGet {
+			d, isDefer := pc.(*ssa.Defer)
+			if !isDefer {
 				continue
 			}
+			mc, isMC := d.Call.Value.(*ssa.MakeClosure)
+			if !isMC {
+				continue
+			}
+			cl, _ := mc.Fn.(*ssa.Function)
+			if cl == nil {
+				continue
+			}
+			for _, inner := range AllCalls(cl) {
+				if CalleeObj(inner) != poolPut {
+					continue
+				}
+				arg := stripIface(inner.Common().Args[1])
+				u, ok := arg.(*ssa.UnOp)
+				if !ok || u.Op != token.MUL {
+					continue
+				}
+				fv, ok := u.X.(*ssa.FreeVar)
+				if !ok {
+					continue
+				}
+				for k, f := range cl.FreeVars {
+					if f == fv {
+						if al, isAl := mc.Bindings[k].(*ssa.Alloc); isAl && cells[al] {
+							puts = append(puts, putEv{in: d, cell: al, deferred: true})
+						}
+					}
+				}
+			}
+		}
+		for _, ev := range puts {
 			n++
-			// values derived from the object: the object itself, loads through it, field loads, slices
-			d := map[ssa.Value]bool{obj: true}
+			// values living in the object: the object itself, loads of its variable, what is reached through it
+			d := map[ssa.Value]bool{}
+			if ev.obj != nil {
+				d[ev.obj] = true
+			}
 			for changed := true; changed; {
 				changed = false
 				Instrs(fn, func(i ssa.Instruction) {
@@ -330,34 +405,55 @@ func runSyncPoolEscape(c *Ctx) {
 					if !isV || d[v] {
 						return
 					}
+					add := false
 					switch x := i.(type) {
 					case *ssa.UnOp:
-						if x.Op == token.MUL && d[x.X] && bufTrack(x.Type()) {
-							d[v] = true
-							changed = true
+						if x.Op != token.MUL {
+							break
+						}
+						if al, isAl := x.X.(*ssa.Alloc); isAl && ev.cell != nil && al == ev.cell {
+							add = true
+						} else if d[x.X] {
+							switch x.Type().Underlying().(type) {
+							case *types.Pointer, *types.Slice, *types.Struct, *types.Interface, *types.Map:
+								add = true
+							default:
+								add = bufTrack(x.Type())
+							}
 						}
 					case *ssa.FieldAddr:
-						if d[x.X] {
-							d[v] = true
-							changed = true
-						}
+						add = d[x.X]
+					case *ssa.Field:
+						add = d[x.X]
+					case *ssa.IndexAddr:
+						add = d[x.X]
 					case *ssa.Slice:
-						if d[x.X] {
-							d[v] = true
-							changed = true
-						}
+						add = d[x.X]
 					case *ssa.MakeInterface:
-						if d[x.X] {
-							d[v] = true
-							changed = true
-						}
+						add = d[x.X]
+					case *ssa.TypeAssert:
+						add = d[x.X]
+					case *ssa.ChangeType:
+						add = d[x.X]
 					case *ssa.Phi:
 						for _, e := range x.Edges {
 							if d[e] {
-								d[v] = true
-								changed = true
+								add = true
 							}
 						}
+					case *ssa.Call:
+						// a method of the pooled object handing out its storage ([]byte results: Bytes(), B ...)
+						if rv := CallRecv(x); rv != nil && d[rv] {
+							if sl, isSl := x.Type().Underlying().(*types.Slice); isSl {
+								if b, isB := sl.Elem().Underlying().(*types.Basic); isB && b.Kind() == types.Uint8 {
+									add = true
+								}
+							}
+						}
+					}
+					if add {
+						d[v] = true
+						changed = true
 					}
 				})
 			}
@@ -369,7 +465,7 @@ func runSyncPoolEscape(c *Ctx) {
 					}
 				}
 			}
-			if _, isDefer := pc.(*ssa.Defer); isDefer {
+			if ev.deferred {
 				Instrs(fn, func(i ssa.Instruction) {
 					if ret, ok := i.(*ssa.Return); ok {
 						checkRet(ret)
@@ -377,13 +473,13 @@ func runSyncPoolEscape(c *Ctx) {
 				})
 			} else {
 				w := &Walk{P: p}
-				w.From(pc)
+				w.From(ev.in)
 				for _, e := range w.Exits {
 					checkRet(e.(*ssa.Return))
 				}
 			}
 			c.fact("local-derivation")
-			c.Check(bad == "", "pooled object in "+FnName(fn), p.InstrPos(pc), "nothing that lives in the pooled object is returned after Put", "data living in a sync.Pool object is returned at "+bad+" although the object goes back to the pool: the next Get (a concurrent invocation) overwrites what the caller of this function still uses")
+			c.Check(bad == "", "pooled object in "+FnName(fn), p.InstrPos(ev.in), "nothing that lives in the pooled object is returned after Put", "data living in a sync.Pool object is returned at "+bad+" although the object goes back to the pool: the next Get (a concurrent invocation) overwrites what the caller of this function still uses")
 		}
 	}
 	if n < 1 {
